@@ -168,3 +168,73 @@ def replay_cases(ctx, path, module='TraceSem.tla', cfg='Trace.cfg'):
     events, bad = run_cases(ctx, [case], module=module, cfg=cfg, family='replay', nshards=1, procs=1)
     ctx.log('replayed event: ' + json.dumps(events[0]))
     report(ctx, bad, 'replay')
+
+
+# ---------------------------------------------------------------- Layer-B bindings (diagnostic)
+def ctl_memo_events(case):
+    """Runs CTL.modelcheck with a wrapper around the module-level _checkStateFormula and returns one
+    mc-event per MEMO ENTRY (formula tree -> labelled set) of the outermost call, so that TLC can check that
+    every entry of the labelling table - not only the returned one - is the exact satisfaction set."""
+    cm = pymc.CTL.model_checking
+    if not hasattr(cm, '_checkStateFormula'):
+        return None
+    K = case['K']
+    k, name, index_of = mk_kripke(K, case.get('naming', 'int'))
+    formula = to_obj(T(case['f']), pymc.CTL)
+    orig = cm._checkStateFormula
+    seen = {'L': None, 'depth': 0}
+
+    def probe(kripke, f, L):
+        if seen['depth'] == 0:
+            seen['L'] = L
+        seen['depth'] += 1
+        try:
+            return orig(kripke, f, L)
+        finally:
+            seen['depth'] -= 1
+    cm._checkStateFormula = probe
+    try:
+        with pymc.quiet():
+            pymc.CTL.modelcheck(k, formula)
+    except Exception:
+        return []
+    finally:
+        cm._checkStateFormula = orig
+    evs = []
+    L = seen['L'] or {}
+    for key, val in list(L.items()):
+        try:
+            tree = pymc.to_tree(key)
+            ret = sorted(index_of[s] for s in val)
+        except Exception:
+            continue
+        evs.append({'logic': 'CTL', 'n': K['n'], 'R': K['R'], 'L': K['L'], 'f': tree,
+                    'out': {'ret': ret, 'isset': True, 'foreign': 0}})
+    return evs
+
+
+def ltl_atoms_events(case):
+    """Wraps LTL.model_checking._build_atoms and returns the closure and the atom list of one call for
+    TraceAtoms.tla (local consistency of every tableau atom)."""
+    lm = pymc.LTL.model_checking
+    if not hasattr(lm, '_build_atoms'):
+        return None
+    K = case['K']
+    k, name, index_of = mk_kripke(K, case.get('naming', 'int'))
+    formula = to_obj(T(case['f']), pymc.LTL)
+    orig = lm._build_atoms
+    got = {}
+
+    def probe(Kr, closure):
+        atoms = orig(Kr, closure)
+        got['closure'] = [pymc.to_tree(f) for f in closure]
+        got['atoms'] = [[index_of[a.state], [pymc.to_tree(f) for f in a]] for a in atoms]
+        return atoms
+    lm._build_atoms = probe
+    try:
+        out = with_time_limit(lambda: call_mc('LTL', k, formula), 10.0)
+    finally:
+        lm._build_atoms = orig
+    if 'atoms' not in got or len(got['atoms']) > 400:
+        return []
+    return [{'n': K['n'], 'R': K['R'], 'L': K['L'], 'f': case['f'], 'closure': got['closure'], 'atoms': got['atoms']}]
